@@ -351,6 +351,12 @@ fn counter_reader() -> Rc<RefCell<Option<std::sync::Arc<std::sync::Mutex<(usize,
     COUNTER.with(|c| c.clone())
 }
 
+fn run_script_guarded(r: &mut Report, script: &Script, fault: Fault) -> Option<Outcome> {
+    let mut out = None;
+    super::guarded(r, script_json(script, &fault), |_| out = Some(run_script(script, fault)));
+    out
+}
+
 fn judge(r: &mut Report, script: &Script, fault: Fault, o: &Outcome) {
     r.eval();
     for (sig, what, detail) in &o.violations {
@@ -411,28 +417,31 @@ pub fn run(a: &Args) -> Report {
         if i as u64 % a.nshards.max(1) != a.shard {
             continue;
         }
-        let o = run_script(s, Fault::None);
-        judge(&mut r, s, Fault::None, &o);
+        if let Some(o) = run_script_guarded(&mut r, s, Fault::None) {
+            judge(&mut r, s, Fault::None, &o);
+        }
         r.count("directed_pairs");
     }
     // fault enumeration over random scripts
     let scripts = (if a.quick() { 32 } else { 480 }) / a.nshards.max(1);
     for _ in 0..scripts.max(1) {
         let script = gen_script(&mut rng);
-        let base = run_script(&script, Fault::None);
+        let Some(base) = run_script_guarded(&mut r, &script, Fault::None) else { continue };
         judge(&mut r, &script, Fault::None, &base);
         r.count("scripts");
         let m = base.messages.min(400);
         // every single drop / duplicate / delay; errors, stripped tokens and crashes on a stride
         for k in 0..m {
             for f in [Fault::Drop(k), Fault::Dup(k), Fault::Delay(k)] {
-                let o = run_script(&script, f);
-                judge(&mut r, &script, f, &o);
+                if let Some(o) = run_script_guarded(&mut r, &script, f) {
+                    judge(&mut r, &script, f, &o);
+                }
             }
             if k % 3 == 0 {
                 for f in [Fault::Error(k, *rng.pick(&[203, 205, 301, 302, 201])), Fault::StripToken(k), Fault::CrashPeer(k)] {
-                    let o = run_script(&script, f);
-                    judge(&mut r, &script, f, &o);
+                    if let Some(o) = run_script_guarded(&mut r, &script, f) {
+                        judge(&mut r, &script, f, &o);
+                    }
                 }
             }
         }
@@ -441,8 +450,9 @@ pub fn run(a: &Args) -> Report {
         for _ in 0..pairs {
             let (k1, k2) = (rng.usize(m.max(1)), m.saturating_sub(1 + rng.usize(m.min(12).max(1))));
             let f = Fault::DropTwo(k1, k2);
-            let o = run_script(&script, f);
-            judge(&mut r, &script, f, &o);
+            if let Some(o) = run_script_guarded(&mut r, &script, f) {
+                judge(&mut r, &script, f, &o);
+            }
         }
     }
     r
